@@ -126,7 +126,7 @@ Proof.
     destruct (mem b (borrowers s)); cbn [negb fst]; [|exact H]. cbn. now apply give_back_nodup.
   - destruct (phase_of s t) as [|b|b e]; [exact H| |].
     + destruct (mustc s t); [|exact H].
-      destruct (mem t _); cbn [fst]; [|exact H]. unfold taint. cbn. now apply give_back_nodup.
+      unfold fy_cancel. destruct (mem b _); cbn [fst]; [|exact H]. now apply give_back_nodup.
     + destruct (negb (evset s e) && negb (fcanc s t)); cbn [fst]; [exact H|].
       destruct (fcanc s t || mustc s t); [|exact H].
       destruct (evset s e); cbn [fst]; [|exact H]. now apply give_back_nodup.
@@ -166,9 +166,9 @@ Proof.
     pose proof (give_back_fields s b) as (-> & _). apply give_back_grant.
   - destruct (phase_of s t) as [|b|b e]; [now left| |].
     + destruct (mustc s t); [|now left].
-      destruct (mem t _); cbn [fst]; [|now left]. unfold taint. cbn [borrowers total].
-      pose proof (give_back_fields (leave s t (remove_one b (resv s))) t) as (-> & _).
-      apply (give_back_grant (leave s t (remove_one b (resv s))) t).
+      unfold fy_cancel. destruct (mem b _); cbn [fst]; [|now left].
+      pose proof (give_back_fields (leave s t (remove_one b (resv s))) b) as (-> & _).
+      apply (give_back_grant (leave s t (remove_one b (resv s))) b).
     + destruct (negb (evset s e) && negb (fcanc s t)); cbn [fst]; [now left|].
       destruct (fcanc s t || mustc s t); [|now left].
       destruct (evset s e); cbn [fst]; [|now left].
@@ -206,8 +206,8 @@ Proof.
   - destruct (is_idle _); cbn [negb fst]; [|reflexivity]. destruct (mem _ _); cbn [negb fst]; [|reflexivity].
     cbn. now pose proof (give_back_fields s b) as (-> & _).
   - destruct (phase_of s t) as [|b|b e]; [reflexivity| |].
-    + destruct (mustc s t); [|reflexivity]. destruct (mem t _); cbn [fst]; [|reflexivity].
-      unfold taint. cbn. now pose proof (give_back_fields (leave s t (remove_one b (resv s))) t) as (-> & _).
+    + destruct (mustc s t); [|reflexivity]. unfold fy_cancel. destruct (mem b _); cbn [fst]; [|reflexivity].
+      now pose proof (give_back_fields (leave s t (remove_one b (resv s))) b) as (-> & _).
     + destruct (negb (evset s e) && negb (fcanc s t)); cbn [fst]; [reflexivity|].
       destruct (fcanc s t || mustc s t); [|reflexivity]. destruct (evset s e); cbn [fst]; [|reflexivity].
       match goal with |- context [give_back ?x b] => now pose proof (give_back_fields x b) as (-> & _) end.
@@ -326,8 +326,8 @@ Proof.
     pose proof (give_back_fields s b) as (_ & -> & _). auto.
   - destruct (phase_of s t) as [|b|b e] eqn:Ep; [injection H as <- <-; reflexivity| |].
     + destruct (mustc s t).
-      * destruct (mem t _); injection H as <- <-; [|reflexivity]. unfold taint. cbn.
-        now pose proof (give_back_fields (leave s t (remove_one b (resv s))) t) as (_ & -> & _).
+      * unfold fy_cancel in H. destruct (mem b _); injection H as <- <-; [|reflexivity].
+        now pose proof (give_back_fields (leave s t (remove_one b (resv s))) b) as (_ & -> & _).
       * injection H as <- <-. left. exists t, b. cbn. split; [right; split; [reflexivity|now left]|reflexivity].
     + destruct (negb (evset s e) && negb (fcanc s t)); [injection H as <- <-; reflexivity|].
       destruct (fcanc s t || mustc s t).
@@ -359,9 +359,9 @@ Proof.
   - destruct (is_idle _); cbn [negb fst]; [|now apply Hnil]. destruct (mem _ _); cbn [negb fst]; [|now apply Hnil].
     apply Hnil. cbn. now pose proof (give_back_fields s b) as (_ & _ & _ & ->).
   - destruct (phase_of s t) as [|b|b e]; [now apply Hnil| |].
-    + destruct (mustc s t); [|now apply Hnil]. destruct (mem t _); cbn [fst]; [|now apply Hnil].
-      apply Hnil. unfold taint. cbn.
-      now pose proof (give_back_fields (leave s t (remove_one b (resv s))) t) as (_ & _ & _ & ->).
+    + destruct (mustc s t); [|now apply Hnil]. unfold fy_cancel. destruct (mem b _); cbn [fst]; [|now apply Hnil].
+      apply Hnil.
+      now pose proof (give_back_fields (leave s t (remove_one b (resv s))) b) as (_ & _ & _ & ->).
     + destruct (negb (evset s e) && negb (fcanc s t)); cbn [fst]; [now apply Hnil|].
       destruct (fcanc s t || mustc s t); [|now apply Hnil]. destruct (evset s e); cbn [fst]; [|now apply Hnil].
       apply Hnil. match goal with |- context [give_back ?x b] =>
@@ -425,10 +425,11 @@ Proof.
 Qed.
 
 (* (b) the token had been granted (before or after the cancellation reached the task), or the task sits in
-   the shielded yield of a plain acquire(): the token is given back and offered to the head of the queue *)
+   the shielded yield of acquire() / acquire_on_behalf_of(b) (any borrower b, also a foreign one): the token
+   is given back on behalf of b and offered to the head of the queue *)
 Theorem lim_cancel_after_grant v s t b : reach v s -> tainted s = false ->
   ((exists e, phase_of s t = Waiting b e /\ evset s e = true /\ (fcanc s t = true \/ mustc s t = true)) \/
-   (phase_of s t = FastYield b /\ b = t /\ mustc s t = true)) ->
+   (phase_of s t = FastYield b /\ mustc s t = true)) ->
   let s' := fst (step s (Resume t)) in
   snd (step s (Resume t)) = RCancelled /\ ~ In b (borrowers s') /\ ~ In b (held s') /\ ~ In b (resv s') /\
   held s' = held s /\ phase_of s' t = Idle /\ tainted s' = false /\ Inv0 s' /\
@@ -445,13 +446,12 @@ Proof.
                 (upd (fcanc s) t false) (upd (mustc s) t false) (held s) (remove_one b (resv s)) (arrivals s)
                 (tainted s)).
   assert (E : step s (Resume t) = (notify_next s0, RCancelled)).
-  { unfold step; cbn [step_gen]. destruct Hcase as [(e & H1 & H2 & H3)|(H1 & -> & H3)].
+  { unfold step; cbn [step_gen]. destruct Hcase as [(e & H1 & H2 & H3)|(H1 & H3)].
     - rewrite H1, H2. cbn [negb andb].
       assert (Hx : fcanc s t || mustc s t = true) by (destruct H3 as [-> | ->]; [reflexivity|apply orb_true_r]).
       rewrite Hx. unfold give_back, set_queue, leave. cbn. rewrite (queue_pop_absent _ _ Hk). reflexivity.
-    - rewrite H1, H3. cbn [leave borrowers]. apply mem_In in Hb. rewrite Hb.
-      unfold give_back. rewrite taint_notify. unfold taint, leave, with_tok. cbn.
-      rewrite Nat.eqb_refl. cbn. rewrite orb_false_r. reflexivity. }
+    - rewrite H1, H3. unfold fy_cancel. cbn [leave borrowers]. apply mem_In in Hb. rewrite Hb.
+      unfold give_back, leave, with_tok. cbn. reflexivity. }
   cbv zeta. rewrite E. cbn [fst snd].
   assert (C0 : Core s0) by (now apply giveback_core).
   assert (I0 : Inv0 (notify_next s0)).
@@ -477,17 +477,28 @@ Proof.
       apply set_add_new. apply (L_qb _ C0 b'). cbn. rewrite H1. now left.
 Qed.
 
-(* (c) DEFECT D1: acquire_on_behalf_of(b) with b <> current task, native cancellation in the shielded yield:
-   `self.release()` releases the calling task instead of b.  Witness: total 1, task 1 acquires on behalf of
+(* (c) D1 (fixed in /repo by cf4519f): before the fix the shielded-yield handler ran `self.release()`, i.e.
+   released the calling task instead of b.  Witness on the pinned handler: total 1, task 1 acquires on behalf of
    the foreign borrower 11 and is cancelled in the yield: RuntimeError instead of CancelledError, borrower 11
-   keeps the token for ever although no acquire returned for it and every task is idle. *)
-Theorem lim_cancel_foreign_fastyield_refuted :
-  exists ops, let s := final step (init (Some 1)) ops in
-    snd (step s (Resume 1)) = RRuntime /\
-    let s' := fst (step s (Resume 1)) in
-    phase_of s' 1 = Idle /\ held s' = [] /\ borrowers s' = [11] /\ resv s' = [] /\ tainted s' = true /\
-    snd (step s' (AcqOnNowait 2 2)) = RWouldBlock.
-Proof. exists [AcqOn 1 11; Cancel 1]. vm_compute. auto 10. Qed.
+   keeps the token for ever although no acquire returned for it and every task is idle.  At HEAD the same
+   history gives CancelledError and an empty limiter. *)
+Definition d1_ops : list op := [AcqOn 1 11; Cancel 1].
+
+Theorem lim_cancel_foreign_fastyield_refuted_pinned :
+  exists ops, let s := final step_d1_pinned (init (Some 1)) ops in
+    tainted s = false /\ phase_of s 1 = FastYield 11 /\ mustc s 1 = true /\
+    snd (step_d1_pinned s (Resume 1)) = RRuntime /\
+    let s' := fst (step_d1_pinned s (Resume 1)) in
+    phase_of s' 1 = Idle /\ held s' = [] /\ borrowers s' = [11] /\ resv s' = [] /\
+    snd (step_d1_pinned s' (AcqOnNowait 2 2)) = RWouldBlock.
+Proof. exists d1_ops. vm_compute. auto 10. Qed.
+
+Example d1_fixed_at_head :
+  let s := final step (init (Some 1)) d1_ops in
+  tainted s = false /\ phase_of s 1 = FastYield 11 /\ mustc s 1 = true /\
+  snd (step s (Resume 1)) = RCancelled /\ borrowers (fst (step s (Resume 1))) = [] /\
+  tainted (fst (step s (Resume 1))) = false.
+Proof. vm_compute. auto 10. Qed.
 
 (* ---------- 5./6. misuse is rejected and changes nothing ---------- *)
 Theorem lim_no_double_borrow s t b :
